@@ -282,7 +282,7 @@ func ZZH_C10_net_changes() {
 	zzCommit(l, 1)
 	net := zz.Choice("net", 3) // 0 delete, 1 new value, 2 untouched
 	w := []byte{zz.U8("w")}
-	detour := zz.Choice("detour", 7)
+	detour := zz.Choice("detour", 8)
 	zz.Tag("C10.F-touched-record-hashed", detour >= 4)
 	run := func(plain bool) ([]byte, bool, []byte) {
 		x := zzNewLedger(store.Clone(), nil)
@@ -321,6 +321,12 @@ func ZZH_C10_net_changes() {
 				apply()
 				id := x.Snapshot()
 				x.SetBalance(zzAddrs[0], big.NewInt(9))
+				x.RevertToSnapshot(id)
+			case 7: // a failing transfer to an address that has no account record (its object exists: it was read before)
+				apply()
+				_ = x.GetBalance(zzAddrs[1])
+				id := x.Snapshot()
+				x.SetBalance(zzAddrs[1], big.NewInt(9))
 				x.RevertToSnapshot(id)
 			case 6: // a contract deployment onto the account inside a snapshot that is reverted
 				apply()
